@@ -277,7 +277,11 @@ macro_rules! moduli {
             // more: 2^31-1-2^16, 3*2^29, (2^31+1)/3 prime, NTT primes 7*2^26+1, 5*2^25+1, 15*2^27+1, 127*2^24+1,
             // 46340^2, (2^32-1)/3, prime just above 2^30, 10^6+3, 7^2, 2^8+1, 2^15
             2147418111, 1610612736, 715827883, 469762049, 167772161, 2013265921, 2130706433,
-            2147395600, 1431655765, 1073741827, 1000003, 49, 257, 32768
+            2147395600, 1431655765, 1073741827, 1000003, 49, 257, 32768,
+            // where products of residues cross a floating-point or integer width: around 2^26.5 (M^2 ~ 2^53), 2^27, 2^26,
+            // 2^24 (f32), ceil(sqrt(2^31)), 2^16 - 1 and its largest prime, 10^8 + 7, 10^9 + 21 and 10^9 + 33 (primes)
+            94906249, 94906265, 94906266, 94906267, 100000007, 134217727, 134217728, 134217689, 67108864, 67108859,
+            16777216, 16777213, 16777259, 46341, 46340, 46349, 65535, 65521, 1000000021, 1000000033
         }
     };
 }
@@ -716,6 +720,12 @@ fn boundary_residues(m: u32) -> Vec<i64> {
             v.push(x);
         }
     }
+    // operands at the square roots of the integer widths (a product of two of them is the first that no longer fits)
+    for x in [181i64, 182, 255, 256, 257, 32767, 32768, 46339, 46340, 46341, 46342, 65535, 65536, 65537, 92681, 92682, 16777215, 16777216, 16777217, 94906265, 94906266] {
+        if x < mm && !v.contains(&x) {
+            v.push(x);
+        }
+    }
     // worst cases of the Euclidean algorithm (inverse / division): residues next to M/phi and M/phi^2, whose continued
     // fraction with M has only small partial quotients, so the number of division steps is maximal (about 1.44*log2 M)
     let phi = 0.618_033_988_749_894_9_f64;
@@ -933,6 +943,24 @@ fn task_large_boundary(sh: &mut Shard, idx: usize) {
         run_case(sh, f, Case { m, op: Inv, a: x, b: 0 }, LBOUND);
         io_ops_on(sh, f, m, x, LBOUND);
     }
+    // products whose remainder is M-1, M-2, 1 or 0 with both factors close to M (a quotient estimate that is off by one
+    // shows exactly at the ends of the remainder range): y = t * x^-1 for x = M - d
+    for d in 1..=48u32 {
+        if d >= m {
+            break;
+        }
+        let x = m - d;
+        if let Some(ix) = own_inv(x, m) {
+            for t in [m - 1, m - 2, 1, 2 % m] {
+                let y = (t as u64 * ix as u64 % m as u64) as u32;
+                sh.rep.inc("products_with_extreme_remainder");
+                for op in [Mul, MulAssign, Div, DivAssign] {
+                    run_case(sh, f, Case { m, op, a: x as i64, b: y as u64 }, LBOUND);
+                    run_case(sh, f, Case { m, op, a: y as i64, b: x as u64 }, LBOUND);
+                }
+            }
+        }
+    }
     let args = boundary_ctor_args(m);
     for &v in &args {
         run_case(sh, f, Case { m, op: New, a: v, b: 0 }, LBOUND);
@@ -961,7 +989,15 @@ fn task_large_random(sh: &mut Shard, idx: usize, chunk: u64, seed: u64) {
     let mut rng = Rng::new(mix(&[seed, 0xC06, m as u64, chunk]));
     for round in 0..ROUNDS_PER_CHUNK {
         let x = rand_residue(&mut rng, m);
-        let y = rand_residue(&mut rng, m);
+        let mut y = rand_residue(&mut rng, m);
+        if round % 4 == 3 && x > 0 {
+            // steer the product's remainder to an end of its range
+            if let Some(ix) = own_inv(x as u32, m) {
+                let t = *rng.pick(&[m - 1, m - 1, m - 2, 1]) as u64;
+                y = (t * ix as u64 % m as u64) as i64;
+                sh.rep.inc("products_with_extreme_remainder");
+            }
+        }
         for op in BINARY {
             run_case(sh, f, Case { m, op, a: x, b: y as u64 }, LRAND);
         }
